@@ -52,6 +52,9 @@ def run(rep, tier):
     rep.rule("R12.8", "Spline::getInterval returns 0 below the first knot and size-2 above the last-but-one")
     rep.rule("R12.9", "LinSpline::Fit: row i of the design matrix holds the hat-function weights of x_i on its own interval (they sum to 1 and "
                       "reproduce x_i from the two knots), the unknowns are solved against y, and each piece passes through the fitted knot values")
+    rep.rule("R12.10", "Spline::getInterval (shared by the linear, cubic and Akima evaluation): inside the grid the returned index i satisfies r_[i] <= r < r_[i+1] on every "
+                       "grid with increasing abscissae - the index is found by order comparisons between r and grid values only; if abscissa values enter arithmetic (a guess from "
+                       "the mean spacing), the guess is corrected by loops whose exit conditions establish both inequalities")
     units = [front.repo("tools/src/libtools/" + u) for u in ("cubicspline.cc", "akimaspline.cc", "linspline.cc", "spline.cc", "table.cc")] + \
             [front.repo("csg/src/tools/csg_resample.cc")]
     F = Facts(front.export(units))
@@ -76,6 +79,63 @@ def run(rep, tier):
     rep.check(ok, "R12.1", "linear|interpolate", "piece i passes through (x_i,y_i) and (x_{i+1},y_{i+1})", "LinSpline::Interpolate: " + why, f.loc(), sample=True)
     f1, v = ret_of(F, T + "LinSpline::Calculate", env_by_param={"r": r})
     rep.check(is_zero(v - (gsym("a", I) * r + gsym("b", I))), "R12.1", "linear|calculate", "S(r) = a_I r + b_I", "LinSpline::Calculate returns %s" % v, f1.loc())
+
+    # ---------------------------------------------------------------- R12.10 interval lookup
+    gi = F.one(T + "Spline::getInterval")
+    rep.analysed(gi)
+    from vsa.cfg import CFG as _CFG
+    ggi = _CFG(gi)
+    rname = gi.j["params"][0]["name"]
+
+    def is_value(n):
+        """an abscissa value: the parameter r or an element of the grid r_ (r_[k], r_(k)); sizes and indices are not values"""
+        n = unwrap(n)
+        if n.get("k") == "ref" and show(n) == rname:
+            return True
+        if n.get("k") == "opcall" and n.get("op") in ("[]", "()") and show(unwrap(n["args"][0])).replace("this->", "") == "r_":
+            return True
+        return False
+
+    def has_value(n):
+        return any(is_value(x) for x in walk(n))
+    arith = [n for n in gi.walk() if n.get("k") == "binop" and n.get("op") in ("+", "-", "*", "/") and (has_value(n["lhs"]) or has_value(n["rhs"]))]
+    arith += [n for n in gi.walk() if n.get("k") in ("call", "mcall") and not (n.get("callee") or "").endswith(("::size", "::operator[]", "::operator()", "upper_bound", "lower_bound"))
+              and any(is_value(a_) for a_ in (n.get("args") or []))]
+    cmps = [n for n in gi.walk() if n.get("k") == "binop" and n.get("op") in ("<", "<=", ">", ">=") and has_value(n["lhs"]) and has_value(n["rhs"])]
+    rep.floor("R12.10", len(cmps), 1, "comparisons between r and grid values in Spline::getInterval")
+    ok, why = True, ""
+    if arith:
+        heads = set(ggi.back_edge_heads())
+        loop_cmps = []
+        for c in cmps:
+            for b, _neg in ggi.cond_blocks(c["id"]):
+                if b in heads or any(b in ggi.reaches([h_]) and h_ in ggi.reaches([b]) for h_ in heads):
+                    loop_cmps.append(c)
+        rets = [n for n in gi.walk() if n.get("k") == "return" and n["id"] in ggi.where]
+        last_ret = rets[-1] if rets else None
+        dom = [c for c in loop_cmps if last_ret is not None and ggi.dominates(c["id"], last_ret["id"])]
+        if len(dom) < 2:
+            ok = False
+            why = ("the index is computed arithmetically from abscissa values (%s) and is not corrected by loops that establish r_[i] <= r and r < r_[i+1] before the return (%d "
+                   "correcting loop condition(s) found): on a non-uniform grid the guess can be off by more than one interval, so a far-away polynomial piece is evaluated and the "
+                   "spline does not return the data values at the data points" % (", ".join("'%s'" % show(a_)[:50] for a_ in arith[:2]), len(dom)))
+    if not arith:
+        # ascending scan recognised: 'if (r_[v] > r) break;' inside a loop over v, then 'return v - 1' (the last knot not above r)
+        for n in gi.walk():
+            if n.get("k") == "if" and any(x.get("k") == "break" for x in walk(n["then"])):
+                c = unwrap(n["cond"])
+                if c.get("k") == "binop" and c.get("op") in (">", "<") and has_value(c["lhs"]) and has_value(c["rhs"]):
+                    grid_side = c["lhs"] if c["op"] == ">" else c["rhs"]
+                    other = c["rhs"] if c["op"] == ">" else c["lhs"]
+                    g_ = unwrap(grid_side)
+                    if g_.get("k") == "opcall" and show(unwrap(other)) == rname:
+                        v_ = show(unwrap(g_["args"][1]))
+                        rets_ = [x for x in gi.walk() if x.get("k") == "return"]
+                        rv = show(unwrap(rets_[-1].get("value") or rets_[-1].get("sub") or {})).replace(" ", "") if rets_ else ""
+                        if re.match(r"^\w+$", v_) and rv and rv not in ("(%s-1)" % v_, "%s-1" % v_):
+                            ok, why = False, "the scan stops at the first knot above r (index %s) but returns %s instead of %s - 1" % (v_, rv, v_)
+    rep.check(ok, "R12.10", "interval-lookup", "index found by comparisons of r with grid values only" if not arith else "arithmetic guess corrected by loops in both directions",
+              "Spline::getInterval: " + why, gi.loc(arith[0]) if arith else gi.loc(), sample=True)
 
     # ---------------------------------------------------------------- R12.9 linear fit
     ff = F.one(T + "LinSpline::Fit")
